@@ -49,6 +49,11 @@ func main() {
 			usage()
 		}
 		os.Exit(core.ReplayMain(os.Args[2]))
+	case "exec":
+		// debugging aid: vcheck exec <ID> <payload>
+		c := core.Lookup(os.Args[2])
+		sig, detail := c.Exec(os.Args[3])
+		fmt.Fprintf(os.Stderr, "sig=%q\ndetail=%s\n", sig, detail)
 	case "selftest":
 		os.Exit(checks.SelftestMain())
 	case "list":
